@@ -45,6 +45,17 @@ func HarnessC01Message() {
 			mr, me = 1, 1
 		}
 	}
+	if zz.Tier() == 1 {
+		// thorough tier: at most two of the three lists have two entries
+		switch zz.Choice(3) {
+		case 0:
+			mf = 1
+		case 1:
+			me = 1
+		default:
+			mr = 1
+		}
+	}
 	nr, ne, nf := zz.IntRange(0, mr), zz.IntRange(0, me), zz.IntRange(0, mf)
 	type rng struct{ s, e int32 }
 	var rs, es []rng
